@@ -273,6 +273,21 @@ def site_case(item):
         nd = resize(data, fld, fields, nb)
         if nd is not None and nd != data:
             cases.append((lab, nd))
+    # key-independent degenerate signatures (classic universal forgeries
+    # against verifiers that skip a range check)
+    if field == "signature":
+        for lab, nb in (
+                ("der-r1-s0", bytes.fromhex("3006020101020100")),
+                ("der-r0-s0", bytes.fromhex("3006020100020100")),
+                ("der-r0-s1", bytes.fromhex("3006020100020101")),
+                ("der-r1-s1", bytes.fromhex("3006020101020101")),
+                ("der-empty-seq", bytes.fromhex("3000")),
+                ("raw-one", bytes(len(proof) - 1) + b"\x01"),
+                ("eddsa-identity-R-zero-S",
+                 b"\x01" + bytes(len(proof) - 1))):
+            nd = resize(data, fld, fields, nb)
+            if nd is not None and nd != data:
+                cases.append((lab, nd))
     # proof taken from another handshake (other randoms)
     ok2, idx2, data2, _ = capture(sc, seed + 1000, victim, tok)
     if ok2 and data2 is not None:
